@@ -62,8 +62,10 @@ def long_sets(R, ins):
     L = AB.long_string(R, ['a', '-'], ins)
     L2 = AB.long_string(R, ['b', '.'])
     plain = AB.long_string(R, ['a', '-'])
+    P1, P2 = 'a' * len(L), 'b' * len(L)
     out = [[L], [L, 'a'], [L, L2], [L, L2, 'a-b'],
-           [L, AB.long_string(R + 1, ['b', '.'])]]
+           [L, AB.long_string(R + 1, ['b', '.'])],
+           [L, P1], [L, L2, P1], [L, L2, P1, P2]]
     if ins is not None:
         out += [[L, plain], [L, plain, 'x' + ins + 'y']]
     return out
@@ -79,6 +81,17 @@ def long_fn_strings():
             AB.long_string(99, ['a', '-'], '\r'),
             AB.long_string(100, ['b', '.'], '\u2028'), 'a']
 
+
+# (a2) sets whose expressions overlap: every base string also with a trailing
+# newline / CR-LF ('$' matches before one final newline), and long strings
+# next to plain strings of the same length ('.{n}' next to '[a-z]{n}')
+NL_BASE = ['a', 'ab', 'abc', 'A', '1', 'a-b', 'a b', '']
+NL_STRINGS = NL_BASE + [x + '\n' for x in NL_BASE] + \
+    [x + '\r\n' for x in NL_BASE]
+NL_FN_PATTERNS = ['^[a-z]+$', '^a$', '^a\\\n$', '^.+$', '^[a-z]+\\s$']
+NL_FN_STRINGS = ['a', 'a\n', 'ab', 'ab\n', 'a\r\n']
+ROUTES = ['x:list', 'x:dict', 'x:counter', 'xb:list', 'xb:dict',
+          'xb:counter']
 
 # (e) zero counts / None
 A_ZERO3 = ['', 'a', 'A', '1', 'a1', 'ab', '-', 'a-b', 'a b', ' a', 'é', '12',
@@ -179,6 +192,10 @@ class C18(Check):
              ('long', 'examples with 98..101 character-class runs, with and '
                       'without a line-break-like character inside'),
              ('zero', 'dict / Counter input with zero counts; None in lists'),
+             ('nl', 'strings with and without a trailing newline / CR-LF: '
+                    'overlapping and subsumed expressions'),
+             ('routes', 'the same multiset through extract(as_object=True) '
+                        'with list / dict / Counter, str and bytes+encoding'),
              ('overlap', 'rex_coverage / rex_incremental_coverage / '
                          'rex_full_incremental_coverage on overlapping '
                          'hand-made expression lists')]
@@ -194,7 +211,7 @@ class C18(Check):
         full = tier
         tier = eff_tier(tier)
         if tier != full and layer not in ('n1', 'n2', 'n3', 'overlap', 'meta',
-                                          'long', 'zero'):
+                                          'long', 'zero', 'nl', 'routes'):
             return
         allo = range(len(AB.OPTIONS))
         if layer == 'n1':
@@ -241,8 +258,35 @@ class C18(Check):
                 for xs in itertools.combinations(A18, 2):
                     yield {'x': list(xs), 'o': o, 'F': 2,
                            'forms': ['list-none']}
+        elif layer == 'nl':
+            for xs in itertools.combinations(NL_STRINGS, 2):
+                yield {'x': list(xs), 'o': 0, 'F': 2, 'forms': 2}
+            for xs in itertools.combinations(NL_STRINGS, 3):
+                yield {'x': list(xs), 'o': 0, 'F': 2}
+            for o in (1, 4):
+                for xs in itertools.combinations(NL_STRINGS[:16], 2):
+                    yield {'x': list(xs), 'o': o, 'F': 2}
+        elif layer == 'routes':
+            for xs in itertools.combinations(A18, 2):
+                yield {'x': list(xs), 'o': 0, 'F': 2, 'forms': ROUTES}
+            for o in (3, 4):
+                for xs in itertools.combinations(A_ZERO3, 2):
+                    yield {'x': list(xs), 'o': o, 'F': 2, 'forms': ROUTES}
+            for xs in itertools.combinations(A_ZERO3, 3):
+                yield {'x': list(xs), 'o': 0, 'F': 2, 'forms': ROUTES,
+                       'alt': True}
+            for xs in itertools.combinations(NL_STRINGS[:16], 2):
+                yield {'x': list(xs), 'o': 0, 'F': 2, 'forms': ROUTES,
+                       'alt': True}
         elif layer == 'overlap':
             th = tier == 'thorough'
+            lists = [[p] for p in NL_FN_PATTERNS]
+            for a, b in itertools.permutations(NL_FN_PATTERNS, 2):
+                lists.append([a, b])
+            for pl in lists:
+                for n in (1, 2):
+                    for xs in itertools.combinations(NL_FN_STRINGS, n):
+                        yield {'k': 'fn', 'p': pl, 'x': list(xs), 'F': 2}
             for m in METACHARS:
                 ps = meta_patterns(m)
                 ms = meta_strings(m)[:4] + [meta_strings(m)[7]]
@@ -366,6 +410,11 @@ class C18(Check):
 
     def one(self, R, xs, fv, form, o, opts, pruning, sampled, sizeidx):
         n_none = 0
+        route, form0 = 'Extractor', form
+        if form.startswith('x:'):
+            route, form = 'extract(as_object)', form[2:]
+        elif form.startswith('xb:'):
+            route, form = 'extract(bytes, encoding, as_object)', form[3:]
         if form == 'list':
             inp = AB.round_robin(xs, fv)
         elif form == 'list-none':
@@ -382,7 +431,18 @@ class C18(Check):
             kw['size'] = self.rexpy.Size(**AB.SIZE_POINTS[sizeidx])
             kw['seed'] = 1
         try:
-            x = self.quiet(self.rexpy.Extractor, inp, **kw)
+            if route == 'Extractor':
+                x = self.quiet(self.rexpy.Extractor, inp, **kw)
+            elif route == 'extract(as_object)':
+                x = self.quiet(self.rexpy.extract, inp, as_object=True, **kw)
+            else:
+                if isinstance(inp, dict):
+                    binp = type(inp)(dict((k.encode('utf-8'), v)
+                                          for k, v in inp.items()))
+                else:
+                    binp = [k.encode('utf-8') for k in inp]
+                x = self.quiet(self.rexpy.extract, binp, encoding='utf-8',
+                               as_object=True, **kw)
         except Exception as e:
             # whether extraction succeeds is C03/C13's business
             R.ev()
@@ -407,8 +467,8 @@ class C18(Check):
         strip = bool(opts.get('strip'))
         rem = bool(opts.get('remove_empties'))
         kept, info = M.kept_examples(list(zip(xs, fv)), strip, rem)
-        sub = {'freqs': fv, 'form': form}
-        base = {'input': inp if form.startswith('list')
+        sub = {'freqs': fv, 'form': form0}
+        base = {'route': route, 'input': inp if form.startswith('list')
                 else {form: dict(inp)}, 'options': opts}
         viols = []
 
@@ -442,46 +502,65 @@ class C18(Check):
             self.flush(R, viols, [], [], base, sub, sampled, pruning, o)
             return
         try:
-            table, ambiguous = M.match_table(rexes, list(kept))
+            tables = M.match_tables(rexes, list(kept))
         except re.error:
             R.unspec += 1
             R.out('rex-does-not-compile')
             return
-        if ambiguous:
-            R.unspec += 1
-            R.out('ambiguous-trailing-newline')
-            return
+        table = tables[0]                       # strict reading
+        if len(tables) > 1:
+            R.unspec += 1                       # figures may follow either
         unc = M.uncovered(table, kept)
         if len(rexes) >= 2 or max(fv) > 1:
             R.nontrivial = True
-        overlap = sum(M.coverage(table, kept, True)) > len(kept) - len(unc)
+        overlap = any(sum(M.coverage(t, kept, True))
+                      > len(kept) - len(M.uncovered(t, kept)) for t in tables)
+
+        def either(check):
+            """a figure must be right under one admissible reading of
+            "matches"; violations are reported for the strict one"""
+            errs = [check(t) for t in tables]
+            if all(errs):
+                viols.extend(errs[0])
+
+        kl = list(kept.items())
         # ---- coverage
         for dedup in (False, True):
             got = list(self.quiet(x.coverage, dedup=dedup))
-            want = M.coverage(table, kept, dedup)
-            if got != want:
-                bad('coverage:dedup=%d' % dedup, 'coverage-equals-match-count',
-                    dedup=dedup, rex=rexes, got=got, expected=want,
-                    kept=list(kept.items()))
+
+            def chk(t, got=got, dedup=dedup):
+                want = M.coverage(t, kept, dedup)
+                if got != want:
+                    return [('coverage:dedup=%d' % dedup,
+                             'coverage-equals-match-count',
+                             dict(dedup=dedup, rex=rexes, got=got,
+                                  expected=want, kept=kl))]
+                return []
+            either(chk)
         # ---- incremental coverage
         omitted = 0
         for dedup in (False, True):
             inc = self.quiet(x.incremental_coverage, dedup=dedup)
             keys = list(inc.keys())
             fig = 'incremental:dedup=%d' % dedup
-            d = dict(dedup=dedup, rex=rexes, got=list(inc.items()),
-                     kept=list(kept.items()))
+            d = dict(dedup=dedup, rex=rexes, got=list(inc.items()), kept=kl)
             if any(k not in rexes for k in keys) or len(set(keys)) < len(keys):
                 bad(fig + ':keys', 'incremental-keys-are-returned-expressions',
                     **d)
                 continue
             order = [rexes.index(k) for k in keys]
-            w = M.walk(order, table, kept)
-            want = [t[1] if dedup else t[0] for t in w]
             got = [inc[k] for k in keys]
-            if got != want:
-                bad(fig + ':values', 'incremental-credits-first-listed-match',
-                    expected=want, **d)
+
+            def chk(t, got=got, order=order, dedup=dedup, fig=fig, d=d):
+                out = []
+                w = M.walk(order, t, kept)
+                want = [u[1] if dedup else u[0] for u in w]
+                if got != want:
+                    out.append((fig + ':values',
+                                'incremental-credits-first-listed-match',
+                                dict(d, expected=want)))
+                return out
+            either(chk)
             if not M.non_increasing(got):
                 bad(fig + ':order', 'incremental-non-increasing', **d)
             if sum(got) != M.total(kept, dedup) and not pruning:
@@ -494,27 +573,33 @@ class C18(Check):
             keys = list(full.keys())
             fig = 'full:dedup=%d' % dedup
             d = dict(dedup=dedup, rex=rexes,
-                     got=[[k, list(full[k])] for k in keys],
-                     kept=list(kept.items()))
+                     got=[[k, list(full[k])] for k in keys], kept=kl)
             if any(k not in rexes for k in keys) or len(set(keys)) < len(keys):
                 bad(fig + ':keys', 'incremental-keys-are-returned-expressions',
                     **d)
                 continue
             order = [rexes.index(k) for k in keys]
-            w = M.walk(order, table, kept)
-            cn = M.coverage(table, kept, False)
-            cu = M.coverage(table, kept, True)
-            for pos, k in enumerate(keys):
-                c = full[k]
-                i = order[pos]
-                for name, g, e in (('n', c.n, cn[i]),
-                                   ('n_uniq', c.n_uniq, cu[i]),
-                                   ('incr', c.incr, w[pos][0]),
-                                   ('incr_uniq', c.incr_uniq, w[pos][1]),
-                                   ('index', c.index, i)):
-                    if g != e:
-                        bad('%s:%s' % (fig, name), 'full-coverage-fields',
-                            field=name, expression=k, expected=e, **d)
+
+            def chk(t, full=full, keys=keys, order=order, fig=fig, d=d):
+                out = []
+                w = M.walk(order, t, kept)
+                cn = M.coverage(t, kept, False)
+                cu = M.coverage(t, kept, True)
+                for pos, k in enumerate(keys):
+                    c = full[k]
+                    i = order[pos]
+                    for name, g, e in (('n', c.n, cn[i]),
+                                       ('n_uniq', c.n_uniq, cu[i]),
+                                       ('incr', c.incr, w[pos][0]),
+                                       ('incr_uniq', c.incr_uniq, w[pos][1]),
+                                       ('index', c.index, i)):
+                        if g != e:
+                            out.append(('%s:%s' % (fig, name),
+                                        'full-coverage-fields',
+                                        dict(d, field=name, expression=k,
+                                             expected=e)))
+                return out
+            either(chk)
             sortkey = [full[k].incr_uniq if dedup else full[k].incr
                        for k in keys]
             if not M.non_increasing(sortkey):
@@ -533,7 +618,8 @@ class C18(Check):
             ','.join(map(str, sorted(M.coverage(table, kept, False)))),
             'overlap' if overlap else 'disjoint',
             ':zero-incr-omitted' if omitted else '',
-            ':uncovered' if unc else ''))
+            ':uncovered' if unc else '') +
+            (':two-readings' if len(tables) > 1 else ''))
         self.flush(R, viols, unc, rexes, base, sub, sampled, pruning, o)
 
     def run_fn(self, case):
@@ -544,89 +630,101 @@ class C18(Check):
         keysT = [M.anchored(p) for p in ps]
         for fv in itertools.product(range(1, F + 1), repeat=len(xs)):
             kept, _ = M.kept_examples(list(zip(xs, fv)))
-            table, amb = M.match_table(ps, list(kept))
+            tables = M.match_tables(ps, list(kept))
             R.ev()
-            cu = M.coverage(table, kept, True)
-            cn = M.coverage(table, kept, False)
-            unc = M.uncovered(table, kept)
-            if sum(cu) > len(kept) - len(unc):
-                R.nontrivial = True
             base = {'patterns': ps, 'examples': list(kept.items())}
             sub = {'freqs': list(fv)}
-            omitted = 0
-            fviols = []
-
-            def bad(fig, clause, **d):
-                fviols.append((fig, clause, d))
-
-            for dedup in (False, True):
-                ex = rx.Examples(list(xs), list(fv))
-                got = list(self.quiet(rx.rex_coverage, list(ps), ex, dedup))
-                want = cu if dedup else cn
-                if got != want:
-                    bad('coverage:dedup=%d' % dedup,
-                        'coverage-equals-match-count', got=got, expected=want)
-                ex = rx.Examples(list(xs), list(fv))
-                inc = self.quiet(rx.rex_incremental_coverage, list(ps), ex,
-                                 dedup)
-                ex = rx.Examples(list(xs), list(fv))
-                full = self.quiet(rx.rex_full_incremental_coverage, list(ps),
-                                  ex, dedup)
-                for name, res in (('incremental', inc), ('full', full)):
-                    keys = list(res.keys())
-                    fig = '%s:dedup=%d' % (name, dedup)
-                    if name == 'full':
-                        d = dict(got=[[k, list(res[k])] for k in keys])
-                    else:
-                        d = dict(got=list(res.items()))
-                    if any(k not in keysT for k in keys):
-                        bad(fig + ':keys',
-                            'incremental-keys-are-returned-expressions', **d)
-                        continue
-                    order = [keysT.index(k) for k in keys]
-                    w = M.walk(order, table, kept)
-                    if name == 'incremental':
-                        gotv = [res[k] for k in keys]
-                        want = [t[1] if dedup else t[0] for t in w]
-                        if gotv != want:
-                            bad(fig + ':values',
-                                'incremental-credits-first-listed-match',
-                                expected=want, **d)
-                        sk = gotv
-                        tot = sum(gotv)
-                        wanttot = M.total(kept, dedup) - sum(
-                            M.weight(kept, s, dedup) for s in unc)
-                        if tot != wanttot:
-                            bad(fig + ':sum', 'incremental-sums-to-total',
-                                total=wanttot, **d)
-                    else:
-                        for pos, k in enumerate(keys):
-                            c = res[k]
-                            i = order[pos]
-                            for fn_, g, e in (
-                                    ('n', c.n, cn[i]),
-                                    ('n_uniq', c.n_uniq, cu[i]),
-                                    ('incr', c.incr, w[pos][0]),
-                                    ('incr_uniq', c.incr_uniq, w[pos][1]),
-                                    ('index', c.index, i)):
-                                if g != e:
-                                    bad('%s:%s' % (fig, fn_),
-                                        'full-coverage-fields', field=fn_,
-                                        expression=k, expected=e, **d)
-                        sk = [res[k].incr_uniq if dedup else res[k].incr
-                              for k in keys]
-                    if not M.non_increasing(sk):
-                        bad(fig + ':order', 'incremental-non-increasing', **d)
-                    omitted += len(ps) - len(keys)
-            self.emit(R, 'functions:', fviols, base, sub)
+            results = [self.fn_check(t, ps, keysT, xs, fv, kept)
+                       for t in tables]
+            if len(tables) > 1:
+                R.unspec += 1
+            fviols, omitted, over, unc = results[0]
+            if all(r[0] for r in results):
+                self.emit(R, 'functions:', fviols, base, sub)
+            if over:
+                R.nontrivial = True
             if omitted:
                 R.unspec += 1
-            R.out('fn:p=%d:x=%d:%s%s%s' % (
-                len(ps), len(xs),
-                'overlap' if sum(cu) > len(kept) - len(unc) else 'disjoint',
+            R.out('fn:p=%d:x=%d:%s%s%s%s' % (
+                len(ps), len(xs), 'overlap' if over else 'disjoint',
                 ':uncovered' if unc else '',
-                ':zero-incr-omitted' if omitted else ''))
+                ':zero-incr-omitted' if omitted else '',
+                ':two-readings' if len(tables) > 1 else ''))
         return R
+
+    def fn_check(self, table, ps, keysT, xs, fv, kept):
+        """all figures of the module-level functions against one reading"""
+        rx = self.rexpy
+        cu = M.coverage(table, kept, True)
+        cn = M.coverage(table, kept, False)
+        unc = M.uncovered(table, kept)
+        over = sum(cu) > len(kept) - len(unc)
+        omitted = 0
+        fviols = []
+
+        def bad(fig, clause, **d):
+            fviols.append((fig, clause, d))
+
+        for dedup in (False, True):
+            ex = rx.Examples(list(xs), list(fv))
+            got = list(self.quiet(rx.rex_coverage, list(ps), ex, dedup))
+            want = cu if dedup else cn
+            if got != want:
+                bad('coverage:dedup=%d' % dedup,
+                    'coverage-equals-match-count', got=got, expected=want)
+            ex = rx.Examples(list(xs), list(fv))
+            inc = self.quiet(rx.rex_incremental_coverage, list(ps), ex,
+                             dedup)
+            ex = rx.Examples(list(xs), list(fv))
+            full = self.quiet(rx.rex_full_incremental_coverage, list(ps),
+                              ex, dedup)
+            for name, res in (('incremental', inc), ('full', full)):
+                keys = list(res.keys())
+                fig = '%s:dedup=%d' % (name, dedup)
+                if name == 'full':
+                    d = dict(got=[[k, list(res[k])] for k in keys])
+                else:
+                    d = dict(got=list(res.items()))
+                if any(k not in keysT for k in keys):
+                    bad(fig + ':keys',
+                        'incremental-keys-are-returned-expressions', **d)
+                    continue
+                order = [keysT.index(k) for k in keys]
+                w = M.walk(order, table, kept)
+                if name == 'incremental':
+                    gotv = [res[k] for k in keys]
+                    want = [t[1] if dedup else t[0] for t in w]
+                    if gotv != want:
+                        bad(fig + ':values',
+                            'incremental-credits-first-listed-match',
+                            expected=want, **d)
+                    sk = gotv
+                    tot = sum(gotv)
+                    wanttot = M.total(kept, dedup) - sum(
+                        M.weight(kept, s, dedup) for s in unc)
+                    if tot != wanttot:
+                        bad(fig + ':sum', 'incremental-sums-to-total',
+                            total=wanttot, **d)
+                else:
+                    for pos, k in enumerate(keys):
+                        c = res[k]
+                        i = order[pos]
+                        for fn_, g, e in (
+                                ('n', c.n, cn[i]),
+                                ('n_uniq', c.n_uniq, cu[i]),
+                                ('incr', c.incr, w[pos][0]),
+                                ('incr_uniq', c.incr_uniq, w[pos][1]),
+                                ('index', c.index, i)):
+                            if g != e:
+                                bad('%s:%s' % (fig, fn_),
+                                    'full-coverage-fields', field=fn_,
+                                    expression=k, expected=e, **d)
+                    sk = [res[k].incr_uniq if dedup else res[k].incr
+                          for k in keys]
+                if not M.non_increasing(sk):
+                    bad(fig + ':order', 'incremental-non-increasing', **d)
+                omitted += len(ps) - len(keys)
+        return fviols, omitted, over, unc
 
     def flush(self, R, viols, unc, rexes, base, sub, sampled, pruning, o):
         if not viols:
